@@ -62,6 +62,8 @@ func (e *Envelope) SetPayload(payload any) error {
 	e.envelope = &dsse.Envelope{
 		Payload:     base64.StdEncoding.EncodeToString(encodedBytes),
 		PayloadType: PayloadType,
+		// not nil, an envelope dumped with "signatures": null can't be loaded
+		Signatures: []dsse.Signature{},
 	}
 
 	return nil
